@@ -31,6 +31,9 @@ def get_velocity_bins(velocity_max=None, velocity_bins=None):
     bin_size = round(velocity_max / velocity_bins)
     bins = [int(min(velocity_max, ((i + 1) * bin_size) + bin_size / 2)) for i in range(0, velocity_bins)]
 
+    # Bins that collapse onto the same value (many bins, or the cap at the maximum velocity) are kept only once
+    bins = list(dict.fromkeys(bins))
+
     return bins
 
 
